@@ -18,6 +18,10 @@ CHECKS = {
    technique="TLC model checking: Pratt parser model vs. an operator-precedence shift-reduce machine driven by the binding-power table as data (Prec.tla) and a parser-independent parenthesisation (Paren.tla); real ASTs and search results of enumerated and random sentences judged by TLC",
    text="On every ABNF sentence up to 5 (quick) / 6 (thorough) tokens, with positional payloads, TLC shows that the parser model builds exactly the tree the documented binding-power order dictates (Prec!TreeOf: explicit stack of open operators, left associativity, projections extending until a looser token), that wrapping the operands implied by the rules in parentheses leaves the tree unchanged, and that chains of one operator group left; a negative control with one binding power changed must fail. The real parser's public AST (parse() and Expression::as_ast()) for every such sentence, for its parenthesised spelling, and for random sentences of up to ~90 tokens is compared by TLC with Prec!TreeOf of the lexed tokens, and the search results of both spellings on two documents must agree.",
    note="Trusted: TLC; Prec.tla (table: pipe 1 < or 2 < and 3 < comparison 5 < flatten 9 < wildcard 20 < filter 21 < dot 40 < not 45 < bracket 55 < call 60; equal level closes = left associativity). One recorded finding (multi-select list after a dot ends a projection's right-hand side) is reported as KNOWN-FINDING."),
+ "C01": dict(engine="eval", design="4/C01",
+   technique="TLC model checking of a TLA+ transcription of the tree-walking evaluator (Interp, Level 1) against a denotational Eval written from the JMESPath specification (Level 0) on a bounded universe of trees x documents; exhaustive short sentences x documents and random long sentences x random documents searched by the real library and judged by TLC against Eval",
+   text="TLC checks on every (tree, document) pair of a bounded universe (all trees of depth <= 1 over 17 leaves under every node kind; every JSON value of depth <= 1 (quick) / 2 (thorough), width 2 over 8 atoms) that the evaluator as coded computes the meaning the specification assigns (nulls dropped from every projection, one-level flatten, short-circuit and/or, 0 truthy, wrong-typed subject null, ascending key order), with two negative controls. Every ABNF sentence without '&' of up to 5 (quick) / 6 (thorough) payload-carrying tokens against a pool of 12 documents, and seeded random sentences of up to ~75/180 tokens against random documents of depth <= 4, are compiled and searched by the real library; TLC lexes the text, builds the Level-0 tree and accepts the observation iff it equals Eval(tree, document).",
+   note="Trusted: TLC; Eval.tla as the reading of the specification; the driver's value abstraction (numbers as rationals with denominator <= 1000). Outcomes that depend on a choice the specification leaves open (expression reference to an `any` parameter, ties in max_by/min_by, to_string of numbers) are counted but not judged. The known finding F15 (C04) changes results of expressions containing `.[..]` inside a projection and is reported as KNOWN-FINDING."),
 }
 
 def main():
